@@ -444,6 +444,7 @@ package appencryption
 //@   opt old-at-acquire
 //@   ensures [C20:fresh-hit-calls-nothing-external] old(cachedAt(c, id)) && (old(cachedRevoked(c, id)) || old(cachedLoadedAt(c, id)) + int(c.policy.RevokeCheckInterval) >= now()) ==> lcalls == old(lcalls) && mk_calls == old(mk_calls)
 //@   ensures [C20:at-most-one-load] lcalls <= old(lcalls) + 1
+//@   ensures [C20:entry-refreshed-meanwhile-is-not-loaded-again] acq(cachedAt(c, id)) && (acq(cachedRevoked(c, id)) || acq(cachedLoadedAt(c, id)) + int(c.policy.RevokeCheckInterval) >= now()) ==> lcalls == old(lcalls)
 //@   ensures [C05,C20:returned-key-confirmed-within-one-interval] err == nil ==> result.CryptoKey.revoked == 1 || cval(c.keys)[ck(id.ID, result.CryptoKey.created)].loadedAt + int(c.policy.RevokeCheckInterval) >= old(now())
 //@   ensures [C09:uncached-key-has-one-reference] err == nil && !cacheowned(result.CryptoKey.secret) ==> owed(result) == 1
 //@   ensures [C09:no-stray-secret] forall s securememory.Secret :: live(s) && !old(live(s)) ==> fresh(s) && (cacheowned(s) || (err == nil && s == result.CryptoKey.secret))
